@@ -191,7 +191,10 @@ def roundtrip_job(job):
             stc = {}
             ext = rng.choice(["extend", "clip", "clip", "zero"])
             bounds = {} if ext == "extend" else {"lower_bound": min(x) + 1.0, "upper_bound": max(x) - 1.0}     # some training values out of bounds
-            if bounds and not (bounds["lower_bound"] < bounds["upper_bound"]):
+            # knots are chosen among the training values inside the bounds: too few distinct ones there is a precondition failure of the
+            # call (the library says so), not a case of the property
+            if bounds and (not (bounds["lower_bound"] < bounds["upper_bound"])
+                           or len({v for v in x if bounds["lower_bound"] <= v <= bounds["upper_bound"]}) < df_ + 4):
                 bounds, ext = {}, "extend"
             cen = mat_of(fn(numpy.array(x), df=df_, constraints="center", extrapolation=ext, _state=stc, **bounds))
             rec["center_call"] = f"{kind}(x, df={df_}, constraints='center', extrapolation={ext!r}, bounds={bounds})"
